@@ -240,9 +240,10 @@ example :
 /-! ### Stage D — the round trip through the text -/
 
 /-- `Marshal` then `Unmarshal`: a well-formed record of a flat schema whose fields all have
-    well-formed names, are not `multiline` and render as one trimmed line (`textRec`), with
-    at least one field written (`someWritten`; an empty paragraph is no paragraph), is
-    marshalled to a text that unmarshals to the same record. -/
+    well-formed names, are not `multiline` and render as text (`textRec`: one trimmed line;
+    or, in a list field whose strip set has the newline, any text lines in the sense of
+    C08's `textValue`), with at least one field written (`someWritten`; an empty paragraph
+    is no paragraph), is marshalled to a text that unmarshals to the same record. -/
 theorem C09_roundtrip (s : Schema) (r : List Val) (hs : flatSchema s = true) (hr : wfRec s r)
     (ht : textRec s r = true) (hne : someWritten s r = true) :
     ∃ text r', marshal s r = .ok text ∧ unmarshal s text = .ok r' ∧ SameRec s r r' :=
@@ -276,6 +277,43 @@ example : wfRec textSample textRecord := by
     simp only [List.mem_cons, List.not_mem_nil, or_false] at hx
     rcases hx with rfl | rfl <;> exact ⟨trivial, _, rfl, by decide +kernel⟩
 
+/-- A newline-separated list of file hashes (the `Files` field of a .dsc): the value has
+    two lines, the second is written as a continuation line, the reader appends a newline,
+    the strip set removes it. -/
+def filesSample : Schema :=
+  [.mk "Source" (Bytes.ofString "Source") .str [] [] true false false,
+   .mk "Files" (Bytes.ofString "Files") (.slice (.custom "MD5FileHash")) [10]
+     (Bytes.ofString "\n\r\t ") false false false]
+
+def hashA : FileHash :=
+  { alg := sMd5, hash := Bytes.ofString "d41d8cd9", size := 12,
+    filename := Bytes.ofString "a.dsc", byHash := [] }
+
+def hashB : FileHash :=
+  { alg := sMd5, hash := Bytes.ofString "900150983c", size := 3,
+    filename := Bytes.ofString "a.tar.gz", byHash := [] }
+
+def filesRecord : List Val :=
+  [.str (Bytes.ofString "hello"), .list [.custom (.hash hashA), .custom (.hash hashB)]]
+
+example : flatSchema filesSample = true ∧ textRec filesSample filesRecord = true ∧
+    someWritten filesSample filesRecord = true ∧
+    marshal filesSample filesRecord = .ok (Bytes.ofString
+      "Source: hello\nFiles: d41d8cd9 12 a.dsc\n 900150983c 3 a.tar.gz\n") := by
+  decide +kernel
+
+example : wfRec filesSample filesRecord := by
+  refine ⟨trivial, ?_, trivial⟩
+  intro x hx
+  simp only [List.mem_cons, List.not_mem_nil, or_false] at hx
+  rcases hx with rfl | rfl
+  · refine ⟨⟨_, rfl, fun h0 => absurd h0 (by decide +kernel), fun _ => ?_⟩, _, rfl, by decide +kernel⟩
+    have : parseFileHash sMd5 (renderFileHash hashA) = .ok hashA := by decide +kernel
+    exact congrArg (Except.map Custom.hash) this
+  · refine ⟨⟨_, rfl, fun h0 => absurd h0 (by decide +kernel), fun _ => ?_⟩, _, rfl, by decide +kernel⟩
+    have : parseFileHash sMd5 (renderFileHash hashB) = .ok hashB := by decide +kernel
+    exact congrArg (Except.map Custom.hash) this
+
 /-- `textRec` cannot be dropped: a string that starts with a blank is written on a
     continuation line and comes back with a trailing newline; a multi-line value comes back
     with one, too. -/
@@ -288,6 +326,23 @@ example :
      | _ => false) = true ∧
     (match unmarshal s (Bytes.ofString "K: a\n b\n") with
      | .ok [.str b] => b == Bytes.ofString "a\nb\n"
+     | _ => false) = true := by
+  decide +kernel
+
+/-- Why `flatField` allows `multiline` only on lists: a multi-line string is stored with its
+    leading newline and decodes from the paragraph with it; through the text it comes back
+    with a trailing newline instead. -/
+example :
+    let B := Bytes.ofString
+    let s : Schema := [.mk "D" [68] .str [] [] false true false]
+    flatSchema s = false ∧
+    convertToParagraph s [.str (B "foo")] = .ok ⟨[[68]], [([68], B "\nfoo")]⟩ ∧
+    (match decodeStruct ⟨[[68]], [([68], B "\nfoo")]⟩ s [] with
+     | .ok [.str b] => b == B "\nfoo"
+     | _ => false) = true ∧
+    marshal s [.str (B "foo")] = .ok (B "D: \n foo\n") ∧
+    (match unmarshal s (B "D: \n foo\n") with
+     | .ok [.str b] => b == B "foo\n"
      | _ => false) = true := by
   decide +kernel
 
